@@ -532,7 +532,12 @@ def decimal_arith(op, a, b, pos):
     # an int beyond the range of a decimal cannot take part in decimal
     # arithmetic; the host reports the conversion as OverflowError
     try:
-        return ValueDecimal(op(a.asDecimal().value, b.asDecimal().value))
+        result = op(a.asDecimal().value, b.asDecimal().value)
+        # the host's arithmetic leaves the range silently (inf, and nan
+        # from there): no numbers of the language
+        if math.isinf(result) or math.isnan(result):
+            raise OverflowError()
+        return ValueDecimal(result)
     except OverflowError:
         raise CklRuntimeError(
             ValueString("ERROR"),
@@ -544,7 +549,10 @@ def decimal_arith(op, a, b, pos):
 def decimal_value(number, pos):
     # a decimal value holds a host float, also when it was made from an int
     try:
-        return ValueDecimal(float(number))
+        result = float(number)
+        if math.isinf(result) or math.isnan(result):
+            raise OverflowError()
+        return ValueDecimal(result)
     except OverflowError:
         raise CklRuntimeError(
             ValueString("ERROR"),
@@ -4428,7 +4436,7 @@ class FuncSum(ValueFunc):
                 result = total
                 for value in decimals:
                     result += value
-                return ValueDecimal(result)
+                return decimal_value(result, pos)
         except OverflowError:
             raise CklRuntimeError(
                 ValueString("ERROR"),
